@@ -17,7 +17,7 @@ RULE = ("history = 1-15 PooledClient calls (legal arguments; store/fetch/multi-k
         "connection is checked out; a socket on which a fault fired, or that was used by a call that raised or swallowed "
         "an error, or by quit, is closed when the call ends and never touched again; a socket that has only carried "
         "successful calls and idled <= timeout is reused by the next call (no new socket); idled > timeout: it is closed "
-        "at the next checkout and a new one opened; 'Too many objects' never occurs. Re-entrant calls: a serializer that itself uses the same PooledClient, so that a second pooled call starts and ends while the first holds its connection (within one thread): outer set/set_many/get/get_many x inner get/set/get_many/version x 0-2 warm connections x a fault on the nested exchange (swallowed by the serializer or not) x ignore_exc x max_pool_size {2,3,None}; afterwards nothing is checked out, no connection is listed twice, no open socket lives outside the pool, two healthy connections stay idle and are reused by the following calls, close() closes everything. Non-trivial: a fault that fired is "
+        "at the next checkout and a new one opened; 'Too many objects' never occurs. Re-entrant calls: a serializer that itself uses the same PooledClient, so that a second pooled call starts and ends while the first holds its connection (within one thread): outer set/set_many/get/get_many x inner get/set/get_many/version/quit x 0-2 warm connections x a fault on the nested exchange (swallowed by the serializer or not) x ignore_exc x max_pool_size {2,3,None}; afterwards nothing is checked out, no connection is listed twice, no open socket lives outside the pool, two healthy connections stay idle and are reused by the following calls, close() closes everything. Non-trivial: a fault that fired is "
         "followed by a later call, or a gap above the idle timeout is followed by a call.")
 MANIFEST = {
     "category": "fault_enumeration",
@@ -198,7 +198,7 @@ class ReentrantSerde:
         try:
             c = self.client
             r = {"get": lambda: c.get("t"), "set": lambda: c.set("inner", b"i", noreply=False), "get_many": lambda: c.get_many(["t", "n"]),
-                 "version": lambda: c.version()}[self.inner_op]()
+                 "version": lambda: c.version(), "quit": lambda: c.quit()}[self.inner_op]()
             self.inner_results.append(("ok", r))
         except Exception as e:  # noqa: BLE001
             self.inner_results.append(("exc", e))
@@ -223,7 +223,7 @@ def reentrant_cases(tier, seed):
     for mx in (2, 3, None):
         for when, outer in (("serialize", {"op": "set", "key": "k", "value": b"v", "noreply": False}), ("serialize", {"op": "set_many", "values": {"a": b"1"}, "noreply": False}),
                             ("deserialize", {"op": "get", "key": "t"}), ("deserialize", {"op": "get_many", "keys": ["t", "n"]})):
-            for inner_op in ("get", "set", "get_many", "version"):
+            for inner_op in ("get", "set", "get_many", "version", "quit"):
                 for fi, fault in enumerate(inner_faults):
                     for swallow in ((True, False) if fault else (True,)):
                         for ie in (False, True):
@@ -289,7 +289,7 @@ def check_reentrant(case, interruption=None):
             # (a socket whose connect() was aborted by an interruption is simply dropped, unreferenced: not judged - C10 is about slots and replies)
             if id(s_) not in idle_socks and not (interruption and not s_.connected):
                 raise Violation(["reentrant", "open-socket-outside-pool"], "socket %d is open but belongs to no idle pooled connection after %s" % (s_.id, where))
-        healthy = ran and out[0] == "ok" and all(r[0] == "ok" for r in sd.inner_results) and not fired
+        healthy = ran and out[0] == "ok" and all(r[0] == "ok" for r in sd.inner_results) and not fired and case["inner_op"] != "quit"
         if healthy and len(open_now) != 2 and case["warm"] != 0:
             raise Violation(["reentrant", "healthy-connection-dropped"], "both calls succeeded but %d socket(s) are open afterwards (2 expected: one per nesting level): %s" % (len(open_now), where))
         # afterwards: sequential calls reuse what is idle, nothing new is opened while an idle connection exists
